@@ -87,7 +87,7 @@ def run_mc(ctx, module, cfg, workers=8, timeout=1500, heap="8g", expect_violatio
     return res
 
 
-def tlc_generate(ctx, module, cfg_text, name, timeout=600, heap="6g", workers=4):
+def tlc_generate(ctx, module, cfg_text, name, timeout=600, heap="6g", workers=4, simulate=None):
     """run a generator configuration; returns the list of behaviours (each a list of abstract operations) that TLC
     printed from its state constraint - one per generated edge of the abstract state graph"""
     cfg = "_gen_%s_%d.cfg" % (name, os.getpid())
@@ -96,7 +96,10 @@ def tlc_generate(ctx, module, cfg_text, name, timeout=600, heap="6g", workers=4)
     md = os.path.join(ctx.work, "gen-" + name)
     os.makedirs(md, exist_ok=True)
     outp = os.path.join(ctx.work, "gen-%s.out" % name)
-    cmd = tlc_cmd(["-Xmx" + heap]) + ["-workers", str(workers), "-metadir", md, "-config", cfg, module + ".tla"]
+    cmd = tlc_cmd(["-Xmx" + heap]) + ["-workers", str(workers), "-metadir", md, "-config", cfg]
+    if simulate:        # (num, depth): long random behaviours instead of the breadth-first edge enumeration
+        cmd += ["-simulate", "num=%d" % simulate[0], "-depth", str(simulate[1]), "-seed", str(ctx.seed)]
+    cmd += [module + ".tla"]
     try:
         with open(outp, "w") as fo:
             rc = subprocess.run(cmd, cwd=SPEC, stdout=fo, stderr=subprocess.STDOUT, timeout=timeout).returncode
@@ -116,7 +119,16 @@ def tlc_generate(ctx, module, cfg_text, name, timeout=600, heap="6g", workers=4)
                 pass
         else:
             tail = (tail + line)[-1500:]
-    if rc != 0 or not scripts:
+    if simulate:        # all candidate successors of every step were printed: keep one full-length behaviour per distinct prefix
+        seen, full = set(), []
+        for h in scripts:
+            if len(h) == simulate[1]:
+                k = json.dumps(h[:-1], sort_keys=True)
+                if k not in seen:
+                    seen.add(k)
+                    full.append(h)
+        scripts = full
+    if (rc != 0 and not simulate) or not scripts:
         ctx.infra.append("generator %s/%s failed (rc=%s): %s" % (module, name, rc, tail))
     m = re.search(r"(\d+) states generated, (\d+) distinct states found", tail)
     ctx.mc.append({"module": module, "cfg": "generator:" + name, "generated": int(m.group(1)) if m else 0, "distinct": int(m.group(2)) if m else 0,
